@@ -137,7 +137,7 @@ mutual
           subst hcd
           simp only [lt, rankCmp_same hk, rankCmp_same hk', eq_obj, if_true, beq_self_eq_true, Bool.true_and]
           simp only [comparable, Bool.and_eq_true] at hx hy
-          exact triItems ok num (some (env.fields c)) xs ys hx.1 hx.2 hy.1 hy.2
+          exact triItems ok num (objSh env c) xs ys hx.1 hx.2 hy.1 hy.2
         | _ => simp [kindOf] at hk
     · exact tri_diff ok hk
   theorem triList (ok : EnvOk env) (num : Bool) (xs : List Val) : ∀ ys : List Val,
